@@ -29,7 +29,7 @@ import numpy as np
 from harness import core, gen
 from harness.core import F
 
-PROPS_MODULES = ["Pdq.Props.C18"]
+PROPS_MODULES = ["Pdq.Props.C18", "Pdq.Props.C18Start"]
 LEVEL = "proof"
 
 TOL = 1e-12  # relative; observed max on the clean tree ~5e-16 (dt0), ~3e-15 (dt0_adaptive)
